@@ -86,7 +86,14 @@ pub fn run(ctx: &mut Ctx) {
         let mut r = Rng::derive(ctx.seed, &[11, k]);
         let floats = k % 3 == 0;
         let nitems = 1 + r.below(4);
-        let items: Vec<SItem> = (0..nitems).map(|_| { let d = r.below(5); tree(&mut r, d, floats, &names) }).collect();
+        let mut items: Vec<SItem> = (0..nitems).map(|_| { let d = r.below(5); tree(&mut r, d, floats, &names) }).collect();
+        // one case in 24: very deep nesting (depths around powers of two and around every limit
+        // written as a literal in pushr's source), with siblings left behind on the way out
+        if k % 24 == 7 {
+            let d = crate::gen::depth_tail(&mut r);
+            let inner = items.pop().unwrap();
+            items.push(crate::gen::deep_wrap(&mut r, inner, d));
+        }
         ctx.rec.case_marker(k, "round trip");
         // path 1: Item::to_string of a single item
         let one = items[0].to_item();
